@@ -234,14 +234,14 @@ func c10Units(tier string) []Unit {
 	var cfgs []cfg
 	if tier == "quick" {
 		cfgs = []cfg{
-			{"k2v3/T2/dups", []string{"a", "a!"}, []uint64{1, 2, 10}, 2, true, []int{1, 30, 4096}, qs},
-			{"k3v2/T3", []string{"a", "a!", "b"}, []uint64{2, 10}, 3, false, []int{1, 30}, qs2},
+			{"k2v3/T2/dups", []string{"a", "a!"}, []uint64{1, 2, 10}, 2, true, []int{1, 12, 4096}, qs},
+			{"k3v2/T3", []string{"a", "a!", "b"}, []uint64{2, 10}, 3, false, []int{1, 24}, qs2},
 			{"k2v2/T2/at-keys", []string{"a@1", "a"}, []uint64{2, 10}, 2, true, []int{1, 4096}, qs2},
 		}
 	} else {
 		cfgs = []cfg{
-			{"k3v3/T3", []string{"a", "a!", "b"}, []uint64{1, 2, 10}, 3, false, []int{1, 30, 4096}, qs},
-			{"k3v3/T2/dups", []string{"a", "a!", "b"}, []uint64{1, 2, 10}, 2, true, []int{1, 30, 4096}, qs},
+			{"k3v3/T3", []string{"a", "a!", "b"}, []uint64{1, 2, 10}, 3, false, []int{1, 20, 30, 4096}, qs},
+			{"k3v3/T2/dups", []string{"a", "a!", "b"}, []uint64{1, 2, 10}, 2, true, []int{1, 12, 20, 30, 4096}, qs},
 			{"k2v3/T3/dups", []string{"a@1", "a"}, []uint64{1, 2, 10}, 3, true, []int{1, 4096}, qs},
 		}
 	}
@@ -315,7 +315,7 @@ func c10Units(tier string) []Unit {
 func init() {
 	Props["C10"] = &PropMeta{
 		Units: c10Units,
-		Rule: "every assignment of a small versioned universe (2-3 user keys incl. 'a!' and 'a@1', versions {1,2,10}, the middle version a deletion) to tables " +
+		Rule: "(block sizes 1 / 12 / 20 / 30 / 4096 bytes give one, two, three entries per block and a single block) every assignment of a small versioned universe (2-3 user keys incl. 'a!' and 'a@1', versions {1,2,10}, the middle version a deletion) to tables " +
 			"(absent / one table, or any subset of tables = duplicates), flushed with the real flushToL0 in a fixed order, for every block size in the menu; every (key, ts) query " +
 			"incl. never-written keys before/between/after and deterministic bloom false positives, on live handles and on handles rebuilt by recover(); " +
 			"a layout is non-trivial when some user key has versions in at least two tables",
